@@ -832,6 +832,9 @@ package main
 //@ func (*RuntimeState).updateAuthJWTWithNewAuthLevel
 //@   atcall github.com/go-jose/go-jose/v4.NewSigner requires (sk jose.SigningKey, opts *jose.SignerOptions) :: sk.Key != nil && state.Signer != nil && sk.Key == any(state.Signer)   #C09.upgraded-cookie-signed-by-the-loaded-key @C09
 //@ func (*RuntimeState).genNewSerializedStorageStringDataJWT
+// the signed record says whose it is, what it holds and until when it counts: the expiry signed is the expiry given
+// (so the signature bounds the record's life, whatever the row's own expiry column is made to say)
+//@   atcall jwt.Builder).Claims requires (b jwt.Builder, i any) :: isType[storageStringDataJWT](i) && asType[storageStringDataJWT](i).Expiration == expiration && asType[storageStringDataJWT](i).Subject == username && asType[storageStringDataJWT](i).DataType == dataType && asType[storageStringDataJWT](i).Data == data && asType[storageStringDataJWT](i).TokenType == "storage_data" && asType[storageStringDataJWT](i).Issuer == state.idpGetIssuer()   #C07.signed-record-carries-the-given-expiry-user-and-data @C07,C04,C15
 //@   atcall github.com/go-jose/go-jose/v4.NewSigner requires (sk jose.SigningKey, opts *jose.SignerOptions) :: sk.Key != nil && state.Signer != nil && sk.Key == any(state.Signer)   #C09.storage-record-signed-by-the-loaded-key @C09
 //@ func (*RuntimeState).generateAuthJWT
 //@   atcall github.com/go-jose/go-jose/v4.NewSigner requires (sk jose.SigningKey, opts *jose.SignerOptions) :: sk.Key != nil && state.Signer != nil && sk.Key == any(state.Signer)   #C09.cli-token-signed-by-the-loaded-key @C09
